@@ -319,6 +319,8 @@ func (so *Sorts) sortOf(t types.Type) string {
 
 func (so *Sorts) sortOf0(t types.Type) string {
 	switch {
+	case t == bseqType:
+		return "BSeq"
 	case isNamed(t, "time", "Time"):
 		return "Time"
 	case isNamed(t, "sync", "Mutex"), isNamed(t, "sync", "RWMutex"), isNamed(t, "sync/atomic", "Int64"),
@@ -370,6 +372,9 @@ func (so *Sorts) sortOf0(t types.Type) string {
 		so.declStruct(name, u, nil)
 		return name
 	case *types.TypeParam:
+		if ct := coreType(u); ct != nil {
+			return so.sortOf(ct)
+		}
 		name := "TP_" + u.Obj().Name()
 		so.sc.declare("s:"+name, fmt.Sprintf("(declare-sort %s 0)", name))
 		return name
@@ -580,4 +585,30 @@ func (so *Sorts) strDistinctAxiom() Term {
 	sort.Strings(names)
 	names = append(names, "emptyStr")
 	return "(distinct " + strings.Join(names, " ") + ")"
+}
+
+// under gives the underlying type, mapping type parameters with a core type
+// (e.g. S ~[]O) to that core type.
+func under(t types.Type) types.Type {
+	t = types.Unalias(t)
+	if tp, ok := t.(*types.TypeParam); ok {
+		if ct := coreType(tp); ct != nil {
+			return ct.Underlying()
+		}
+		return tp.Underlying()
+	}
+	return t.Underlying()
+}
+
+func coreType(tp *types.TypeParam) types.Type {
+	iface, ok := tp.Constraint().Underlying().(*types.Interface)
+	if !ok {
+		return nil
+	}
+	if iface.NumEmbeddeds() == 1 {
+		if u, ok := iface.EmbeddedType(0).(*types.Union); ok && u.Len() == 1 {
+			return u.Term(0).Type()
+		}
+	}
+	return nil
 }
